@@ -321,6 +321,21 @@ func rewriteParens(s string) string {
 	var b strings.Builder
 	for i := 0; i < len(s); i++ {
 		c := s[i]
+		if c == '"' {
+			j := i + 1
+			for j < len(s) && s[j] != '"' {
+				if s[j] == '\\' {
+					j++
+				}
+				j++
+			}
+			if j >= len(s) {
+				j = len(s) - 1
+			}
+			b.WriteString(s[i : j+1])
+			i = j
+			continue
+		}
 		if c == '(' || c == '[' {
 			closeCh := byte(')')
 			if c == '[' {
@@ -329,6 +344,14 @@ func rewriteParens(s string) string {
 			depth := 1
 			j := i + 1
 			for ; j < len(s) && depth > 0; j++ {
+				if s[j] == '"' {
+					for j++; j < len(s) && s[j] != '"'; j++ {
+						if s[j] == '\\' {
+							j++
+						}
+					}
+					continue
+				}
 				if s[j] == c {
 					depth++
 				} else if s[j] == closeCh {
@@ -358,6 +381,14 @@ func splitTop(s string, sep byte) []string {
 	depth := 0
 	start := 0
 	for i := 0; i < len(s); i++ {
+		if s[i] == '"' {
+			for i++; i < len(s) && s[i] != '"'; i++ {
+				if s[i] == '\\' {
+					i++
+				}
+			}
+			continue
+		}
 		switch s[i] {
 		case '(', '[', '{':
 			depth++
